@@ -3,9 +3,11 @@ Child process of the C18 check: replays one history of `jobmap` runs on the real
 
 usage:  python c18_child.py <scenario.json> <workdir>        (PYTHONPATH = repository under test, MOLLI_HOME in scratch)
 
-The job is a `@Job(...).prep/.post` task of a driver derived from the real DriverBase.  Its single command is a
-`sh -c` script that bumps a counter file (one per job name, outside the scratch directory), reads the scripted plan
-of the job from a plan file and behaves accordingly:
+The job is a `@Job(...).prep/.post` task of a driver derived from the real DriverBase.  It has one command per entry
+of the job's plan (`PLAN;PLAN;…`): `sh -c` scripts; command 0 bumps a counter file (one per job name, outside the scratch
+directory), every command reads its own plan from the plan file and behaves accordingly.  The result is a returned
+file (`return_files=("r.txt",)`) or, for the shapes `stdout-none` / `stdout-empty` (`return_files` None / ()), what a
+command printed; `envars` None / {} / set, `files` None / {} / an xyz file:
     S      write the return file, exit 0            F<c>   exit c
     W<c>   write the return file, then exit c       N<n>,<c>  like S from the n-th attempt on, exit c before
     K<s>   write the return file, then die by signal s (kill -s $$)
@@ -35,10 +37,22 @@ def main():
     counters, plans = work / "counters", work / "plans"
     counters.mkdir(exist_ok=True), plans.mkdir(exist_ok=True)
 
-    def script(job, tag):
+    shape = scen.get("shape", "file")          # where the result comes from: a returned file, or stdout (no file requested)
+    from_file = shape == "file"
+    RF = {"file": ("r.txt",), "stdout-none": None, "stdout-empty": ()}[shape]
+    ENV = {"none": None, "empty": {}, "some": {"C18_X": "1"}}[scen.get("envars", "none")]
+    FILES = scen.get("files", "xyz")
+
+    def ncmds(job):
+        return len(scen["plans"].get(job, "S").split(";"))
+
+    def script(job, tag, i):
+        """command number i of the job: command 0 bumps the job's counter; every command follows its own plan"""
         c, p = shlex.quote(str(counters / job)), shlex.quote(str(plans / job))
-        pay = f"printf '%s' {shlex.quote(job + ':' + tag + ':')}$n > r.txt"
-        return (f"n=$(cat {c} 2>/dev/null || echo 0); n=$((n+1)); echo $n > {c}; plan=$(cat {p} 2>/dev/null || echo S); "
+        text = f"printf '%s' {shlex.quote(job + ':' + tag + ':')}$n"
+        pay = f"{text} > r.txt" if from_file else text
+        bump = f"n=$(cat {c} 2>/dev/null || echo 0); n=$((n+1)); echo $n > {c}" if i == 0 else f"n=$(cat {c})"
+        return (f"{bump}; plans=$(cat {p} 2>/dev/null || echo S); plan=$(printf '%s' \"$plans\" | cut -d';' -f{i + 1}); "
                 f"case $plan in S) {pay}; exit 0;; F*) exit ${{plan#F}};; W*) {pay}; exit ${{plan#W}};; K*) {pay}; ulimit -c 0; kill -${{plan#K}} $$; sleep 5;; "
                 f"N*) a=${{plan#N}}; if [ $n -ge ${{a%,*}} ]; then {pay}; exit 0; else exit ${{a#*,}}; fi;; "
                 f"U*) a=${{plan#U}}; if [ $n -lt ${{a%,*}} ]; then {pay}; exit 0; else exit ${{a#*,}}; fi;; O) exit 0;; esac; exit 99")
@@ -48,30 +62,41 @@ def main():
         m.coords = [[0.0, 0.0, 0.0], [1.2, 0.0, 0.0]]
         return m
 
+    def make_input(job, tag, xyz, return_files):
+        files = None if FILES == "none" else {} if FILES == "empty" else {"input.xyz": xyz}
+        cmds = [(shlex.join(["sh", "-c", script(job, tag, i)]), f"t{i}") for i in range(ncmds(job))]
+        return JobInput(job, commands=cmds, files=files, return_files=return_files, envars=ENV)
+
+    def payload_of(out):
+        """the result of a job: the returned file, or the last thing one of its commands printed"""
+        if from_file:
+            return out.files["r.txt"].decode()
+        texts = [v for k, v in sorted((out.stdouts or {}).items(), key=lambda kv: int(kv[0][1:])) if v]
+        if not texts:
+            raise KeyError("no result on stdout")
+        return texts[-1]
+
     class TDriver(DriverBase):
-        @Job(return_files=("r.txt",)).prep
+        @Job(return_files=RF).prep
         def task(self, obj, tag):
-            job = obj.name
-            return JobInput(job, commands=[(shlex.join(["sh", "-c", script(job, tag)]), "t")],
-                            files={"input.xyz": obj.dumps_xyz()}, return_files=self.return_files)
+            return make_input(obj.name, tag, obj.dumps_xyz(), self.return_files)
 
         @task.post
         def task(self, out, obj, tag):
             m = molecule(obj.name)
-            m.attrib["result"] = tag + "|" + out.files["r.txt"].decode()
+            m.attrib["result"] = tag + "|" + payload_of(out)
             return m
 
         # vectorised over the conformers of an ensemble: jobmap names the sub-jobs <key>.<i>; the job itself only sees
         # the conformer, whose index is carried in the x coordinate of its first atom
-        @Job(return_files=("r.txt",)).prep
+        @Job(return_files=RF).prep
         def vtask_one(self, conf, tag):
             job = f"{conf.name}.{int(round(float(conf.coords[0][0])))}"
-            return JobInput(job, commands=[(shlex.join(["sh", "-c", script(job, tag)]), "t")],
-                            files={"input.xyz": conf.dumps_xyz()}, return_files=self.return_files)
+            return make_input(job, tag, conf.dumps_xyz(), self.return_files)
 
         @vtask_one.post
         def vtask_one(self, out, conf, tag):
-            return out.files["r.txt"].decode()
+            return payload_of(out)
 
         vtask = Job.vectorize(vtask_one, name="vtask")
 
@@ -133,8 +158,13 @@ def main():
             for p in sorted(q for q in odir.iterdir() if q.name.endswith(".out")):   # (glob would skip names with a leading dot)
                 try:
                     o = JobOutput.load(p)
-                    f = (o.files or {}).get("r.txt")
-                    out[p.name[:-4]] = [o.exitcode, None if f is None else bytes(f).decode()]
+                    if from_file:
+                        f = (o.files or {}).get("r.txt")
+                        pay = None if f is None else bytes(f).decode()
+                    else:
+                        texts = [v for k, v in sorted((o.stdouts or {}).items(), key=lambda kv: int(kv[0][1:])) if v]
+                        pay = texts[-1] if texts else None
+                    out[p.name[:-4]] = [o.exitcode, pay]
                 except Exception as e:
                     out[p.name[:-4]] = ["unreadable", type(e).__name__]
         return out
